@@ -1,5 +1,5 @@
 \* GENERATED by gen_uricmp_cfgs.py
-\* PROBE: empty value vs missing value (';foo' / ';foo=' / ';foo=a', '?s=' / '?s' / '?s=a'): irregular spellings, outside the domain.
+\* DRIFT ONLY: lists with duplicate names (outside the domain of the laws).
 SPECIFICATION Spec
 CONSTANTS
   OffsMod = 65536
@@ -11,11 +11,11 @@ CONSTANTS
   HostI = {1}
   PortI = {1}
   PNameI = {1, 7}
-  PValI = {1, 5, 2}
+  PValI = {2, 4}
   KP = 2
-  HNameI = {1, 3}
-  HValI = {1, 5, 2}
-  KH = 1
+  HNameI = {1, 2}
+  HValI = {2, 4}
+  KH = 2
   XNameI = {}
   XValI = {}
   Whichs = {}
@@ -23,6 +23,6 @@ CONSTANTS
   RCModes = {0}
   Swaps = {0}
   Revs = {0}
-  Dups = FALSE
-INVARIANTS Emit Reflexive Symmetric CaseInsensitive OrderInsensitive FlagMonotone EntryPointsAgree DemandOnModel GenSane
+  Dups = TRUE
+INVARIANTS Emit EntryPointsAgree GenSane
 CHECK_DEADLOCK FALSE
